@@ -474,9 +474,13 @@ def compile_jobs_for(cfg, outdir, headers, flags, quick):
             jobs.append((outdir, h, ["clang++", "-std=c++14"] + flags["cxx"] + flags["c_in_cxx_extra"], "c++"))
     elif cfg.target == "cpp":
         std = "-std=" + cfg.std.replace("-pmr", "")
-        for h in headers:
-            jobs.append((outdir, h, ["g++", std] + flags["cxx"] + flags["gnu_extra"], "c++"))
-            jobs.append((outdir, h, ["clang++", std] + flags["cxx"], "c++"))
+        for k, h in enumerate(headers):
+            # quick tier: one of the two compilers per (header, configuration), alternating, so that every header meets both
+            pick = (k + sum(map(ord, cfg.ident))) % 2 if quick else None
+            if pick in (None, 0):
+                jobs.append((outdir, h, ["g++", std] + flags["cxx"] + flags["gnu_extra"], "c++"))
+            if pick in (None, 1):
+                jobs.append((outdir, h, ["clang++", std] + flags["cxx"], "c++"))
     return jobs
 
 
@@ -488,7 +492,7 @@ def run_compile(job):
     outdir, header, cmd, xlang = job[:4]
     full = cmd + ["-fsyntax-only", "-I", str(outdir), "-x", xlang, "-"]
     if "--enable-serialization-asserts" in job_args(job):
-        full.insert(1, "-DNUNAVUT_ASSERT(x)=assert(x)")   # documented duty of the user of this option (the support header includes <assert.h>)
+        full.insert(1, "-DNUNAVUT_ASSERT(x)=(void)(x)")   # supplying NUNAVUT_ASSERT is the documented duty of the user of this option
     try:
         p = subprocess.run(full, input=f'#include "{header}"\n', capture_output=True, text=True, timeout=CC_TIMEOUT)
     except subprocess.TimeoutExpired:
@@ -507,6 +511,8 @@ def classify(cfg, cmd, first, guard_collision):
         return "include-guard-collision"
     if re.search(r"integer constant is so large that it is unsigned|integer literal is too large to be represented in a signed integer type", first):
         return "int64-min-literal"
+    if re.match(r"\s*nunavut/support/", first.strip()):
+        return "support-header:" + cfg.ident
     m = re.search(r"\[-W(?:error[=,])?-?W?([\w+-]+)\]", first)
     flag = m.group(1) if m else None
     if cfg.target == "c" and cc == "clang++" and flag in ("zero-as-null-pointer-constant", "nested-anon-types"):
@@ -524,6 +530,8 @@ out = pathlib.Path(sys.argv[1]); only = sys.argv[2:] ; res = {}
 files = sorted(out.rglob("*.py"))
 for f in files:
     rel = f.relative_to(out)
+    if str(rel) == "__init__.py":
+        res["__stray__"] = "top-level __init__.py"; continue
     if only and str(rel) not in only:
         continue
     try:
@@ -630,7 +638,7 @@ def run(ctx: common.Ctx):
     # ---- universes -----------------------------------------------------------------------------------------------
     unis = corpus_universes()
     ncorpus = len(unis)
-    unis += generated_universes(ctx, n_gen=2 if quick else 8, n_simple=2 if quick else 8, n_types=22 if quick else 40)
+    unis += generated_universes(ctx, n_gen=1 if quick else 8, n_simple=2 if quick else 8, n_types=18 if quick else 40)
     good = []
     for u in unis:
         if u.read():
@@ -835,8 +843,11 @@ def run(ctx: common.Ctx):
                 must, may, unc = [set() if x == "-" else set(x.split(",")) for x in m.groups()]
                 if not (must <= real <= (must | may)):
                     ctx.disagree("facilities", where, {"must": sorted(must), "may": sorted(may)}, sorted(real))
-                if unc:
+                opts_ok = c.target == "c" or c.language().get_config_value_as_bool("use_standard_types")
+                if unc and opts_ok:
                     ctx.disagree("facility-coverage", where, {"uncovered": sorted(unc)}, "theorem C06_facilities_covered says none")
+                elif unc:
+                    ctx.count("uncovered_outside_the_theorem_hypotheses(cpp,use_standard_types=false)")
                 for f in real:
                     ctx.count("facility:" + f)
             elif kind in ("nsopen", "nsclose"):
@@ -882,6 +893,9 @@ def run(ctx: common.Ctx):
         for (u, c, out), res in ex.map(py_one, py_runs):
             nmods += len(list(out.rglob("*.py")))
             for rel, msg in sorted(res.items()):
+                if rel == "__stray__":
+                    ctx.count("py_top_level_init_py_of_an_empty_root_namespace(not imported)")
+                    continue
                 cause = re.sub(r"\d+", "#", re.sub(r"'[^']*'", "N", msg))[:70]
                 if "nunavut_support" in msg and c.omit:
                     cause = "support-module-not-generated"
@@ -902,6 +916,8 @@ def run(ctx: common.Ctx):
         for ((u, c, out), m), res in ex.map(py_single, singles):
             ctx.count("python_fresh_interpreter_imports")
             for rel, msg in res.items():
+                if rel == "__stray__":
+                    continue
                 cause = re.sub(r"\d+", "#", re.sub(r"'[^']*'", "N", msg))[:70]
                 if "nunavut_support" in msg and c.omit:
                     cause = "support-module-not-generated"
